@@ -467,6 +467,7 @@ func runDriver(args []string) int {
 		"op_budget":           mon.OpLimit,
 		"workers":             nshards,
 		"known_findings":      known,
+		"exhaustive_families": m.Exhaustive,
 	}
 	ev := evidence{PropertyID: id, Tier: *tier, Seed: *seed, Level: m.Level, Coverage: cov, Assumptions: m.Assume,
 		WallS: time.Since(start).Seconds(), Violations: nreal, Verdict: verdict, Notes: notes}
